@@ -144,6 +144,14 @@ class World:
         model.pop_nodes_and_vars()
         return {"ev": "pop", "m": m, "user_names": self.user_names()}
 
+    def drop(self, m):
+        """Release the last reference to a model without popping it."""
+        import gc
+
+        del self.models[m]
+        gc.collect()
+        return {"ev": "drop", "m": m, "user_names": self.user_names()}
+
     def copy_model(self, m, how):
         model, nodes = self.models[m]
         ev = {"ev": "copy", "m": m, "how": how}
@@ -172,8 +180,12 @@ class World:
     def assign(self, m, x):
         model, nodes = self.models[m]
         others = {k: self.proj(k)["full"] for k in self.models if k != m}
-        nodes[1].value = jnp.float32(x)
-        ev = {"ev": "assign", "m": m, "x": x, "proj": self.proj(m),
+        try:
+            nodes[1].value = jnp.float32(x)
+            crash = ""
+        except Exception as ex:  # noqa: BLE001
+            crash = f"{type(ex).__name__}: {ex}"[:200]
+        ev = {"ev": "assign", "m": m, "x": x, "proj": self.proj(m), "crash": crash,
               "others_unchanged": all(self.proj(k)["full"] == v for k, v in others.items())}
         return ev
 
@@ -203,7 +215,11 @@ def random_trace(rng, nops=14):
             if all(w.models[m][1][o] is w.obj[o] for o in w.models[m][1]):
                 popped = sorted(w.models[m][1])
                 ev.append(w.pop(m))
-        elif r < 0.86 and live and w.n < 3:
+        elif r < 0.77 and live:
+            m = rng.choice(live)
+            if all(w.models[m][1][o] is w.obj[o] for o in w.models[m][1]):
+                ev.append(w.drop(m))
+        elif r < 0.88 and live and w.n < 3:
             ev.append(w.copy_model(rng.choice(live), rng.choice(["deepcopy", "save_load", "copy_rebuild"])))
         elif live:
             m = rng.choice(live)
